@@ -34,7 +34,7 @@ class PathLimit(Exception):
 
 
 class St:
-    __slots__ = ('heaps', 'alloc', 'pc', 'ex', 'gen', 'psums')
+    __slots__ = ('heaps', 'alloc', 'pc', 'ex', 'gen', 'psums', 'recent_idx')
 
     def __init__(self, ex):
         self.ex = ex
@@ -43,6 +43,7 @@ class St:
         self.pc = []
         self.gen = 0
         self.psums = {}
+        self.recent_idx = ()
 
     def fork(self):
         s = St(self.ex)
@@ -51,6 +52,7 @@ class St:
         s.pc = list(self.pc)
         s.gen = self.gen
         s.psums = {k: list(v) for k, v in self.psums.items()}
+        s.recent_idx = self.recent_idx
         return s
 
     def assume(self, t):
@@ -532,9 +534,22 @@ class Executor:
             return
         env = self.spec.env_for(frame, st, frame.entry, results)
         env.vars.update({k: v for k, v in self.top_lets.items() if k not in env.vars})
+        if ins is not None and '_b' in ins:
+            env.point = (ins['_b'], ins['_i'])
         for cl in c.ensures:
             for lbl, t in self.spec.eval_conjuncts(cl, env):
                 self.oblige(st, frame, 'ensures', lbl, t, cl.props, cl.line)
+        # exit assertions: like ensures, but may mention locals and are not exported to callers
+        for cl in c.asserts:
+            try:
+                cj = self.spec.eval_conjuncts(cl, env)
+            except Exception as e:
+                from .speceval import SpecError
+                if isinstance(e, SpecError) and 'unknown identifier' in str(e):
+                    continue   # a local that does not exist on this path (e.g. an early return)
+                raise
+            for lbl, t in cj:
+                self.oblige(st, frame, 'assert', lbl, t, cl.props, cl.line)
 
     # ------------------------------------------------------------------ the interpreter loop
     def run(self, frame, b, i, prev, st, k):
@@ -670,6 +685,15 @@ class Executor:
             info = active[h]
             self.assign_phis(frame, h, prev, st)
             if spec is not None:
+                if spec.asserts:
+                    # lemma steps at the end of the iteration: proved first, then available to the invariants
+                    aenv = self.loop_env(frame, st, info, h)
+                    aenv.point = (prev, len(fn.blocks[prev]['instrs']))
+                    aenv.loop_head = None
+                    for cl in spec.asserts:
+                        for lbl, t in self.spec.eval_conjuncts(cl, aenv):
+                            self.oblige(st, frame, 'assert', 'loop%d:%s' % (L['ord'], lbl), t, cl.props, cl.line)
+                            st.assume(t)
                 env = self.loop_env(frame, st, info, h)
                 for cl in spec.invariants:
                     for lbl, t in self.spec.eval_conjuncts(cl, env):
@@ -732,6 +756,7 @@ class Executor:
                 st.assume(self.spec.eval_bool(cl.ast, env))
             if spec.decreases is not None:
                 info['decreases'] = self.spec.eval_term(spec.decreases.ast, env)
+        info['head_state'] = st.fork()
         frame.loopstack = frame.loopstack + ((h, info),)
         self.run_header(frame, h, st, k)
         return True
@@ -777,6 +802,13 @@ class Executor:
         env.vars.update({k: v for k, v in getattr(self, 'top_lets', {}).items() if k not in env.vars})
         env.loop_head = h
         env.loop_entry = info['entry_state']
+        env.loop_iter = info.get('head_state')
+        nphi = 0
+        for ins in frame.fn.blocks[h]['instrs']:
+            if ins['op'] != 'Phi':
+                break
+            nphi += 1
+        env.point = (h, nphi)
         return env
 
     def havoc_heap(self, st, name, tag, entry_alloc, modset):
@@ -1529,6 +1561,8 @@ class Executor:
             arr, off, ln = x.leaves
             self.safety(st, frame, 'index', ins, z3.And(i >= 0, i < ln), 'index out of range')
             E = self.m.elem(x.t)
+            if all(not i.eq(j) for j in st.recent_idx):
+                st.recent_idx = (st.recent_idx + (i,))[-3:]
             return Val(ins['t'], [z3.IntVal(-1)], ptr=Ptr('elem', E, '', arr, add0(off, i)))
         if k == 'pointer' and self.m.kind(self.m.elem(x.t)) == 'array':
             AT = self.m.elem(x.t)
